@@ -379,6 +379,11 @@ func (ps *Pieces) del(p uint32, force bool) (done bool, complete bool) {
 		ps.mu.Lock()
 	}
 
+	if ps.pieces[p].data == nil {
+		// freed while we were waiting
+		return
+	}
+
 	done = true
 	complete = ps.pieces[p].complete()
 
